@@ -2,12 +2,58 @@ CFG = {
     "modules": ["Parsley.Props.C12"],
     "theorems": [
         "Parsley.C12.transition_table_eq_fig9",
+        "Parsley.C12.table_rows_eq_fig9",
+        "Parsley.C12.table_rows_dispatch",
+        "Parsley.C12.runToks_insts",
+        "Parsley.Content.extract_of_lex",
+        "Parsley.C12.valid_walk_extracts_partial",
+        "Parsley.C12.deviation_rejected_partial",
+        "Parsley.C12.extract_total_on_trees",
     ],
+    "partial": {
+        "Parsley.C12.valid_walk_extracts_partial":
+            "proved for ALL syntax trees under the hypothesis `Lexes d p` (the tokenizer model splits p.render into the tree's tokens); "
+            "missing: the lexer round trip `p.ok -> d >= 1 -> Lexes d p` for spelled numbers, names, literal/hex strings, arrays and "
+            "dictionaries (incl. sufficiency of the object parser's fuel 2*len+2). Non-vacuity instances discharge `Lexes` by evaluation; "
+            "the correspondence run checks it on every generated case (judge: p.ok, p.render = stream, real output = expected p).",
+        "Parsley.C12.deviation_rejected_partial": "same hypothesis `Lexes d p`; same gap.",
+    },
     "gen": ["Operators"],
     "n": {"quick": 1500, "thorough": 60000},
     "exhaustive": {"quick": True, "thorough": True},
-    "rule": "TODO",
-    "trusted_base": COMMON_TB + [],
-    "assumptions": [],
+    "rule": "corpus (DESIGN 4 #18 #19 #20 #33 inputs, one stream using every text operator and separator token, raw edge cases); "
+            "EXHAUSTIVE both tiers: 5 nodes x (73 table operators + 1 unknown) x {outside, inside BX} x {end of stream, followed by each of "
+            "5 probe operators whose acceptance pattern identifies the node} = 4440 cases, state reached by the shortest prefix; "
+            "random: n Figure-9 walks (<=20 instances, spec automaton, text-heavy bias, BX/EX sections with unknown operators, arbitrary "
+            "operands: numbers up to 18+18 digits, names, nested/escaped literal strings, hex strings, arrays, dictionaries, random "
+            "white space/comments) + n single-step deviations (operator replaced/inserted/dropped, operand dropped/added/replaced/rotated, "
+            "text-showing operator with arbitrary operands) + n raw streams (a deviated stream truncated or with one byte damaged; "
+            "correspondence only, oracle skips). Oracle = Fig9.expected on the syntax tree carried by the case (checked: tree well-formed "
+            "and renders to exactly the stream). non-trivial = structured case with >= 2 operator instances",
+    "trusted_base": COMMON_TB + [
+        "harness c12 extract: serialisation of the real OPERATORS const into Parsley/Gen/Operators.lean (name bytes, Debug names of OpType/ArgType)",
+        "Spec/Fig9.lean: transcription of ISO 32000-1 Table 51, Figure 9 (BX/EX permitted at page level and in text objects; d0/d1 nowhere) and Table 109",
+        "modelled, not verified: ParseBuffer primitives (peek/exact/parse_allowed_bytes/parse_bytes_until) as list operations on the remaining input; "
+        "BTreeMap opinfo as last-match lookup; std::str::from_utf8 as a hand-written validator",
+        "lexer round trip (tree -> bytes -> same tokens) is checked by the correspondence run, not proved (see partial_theorems)",
+    ],
+    "assumptions": [
+        "fresh PDFObjContext per content stream with max_depth >= 1, unrestricted ParseBuffer (views: C17)",
+        "Rust tree with pending fixes C12-01..04 applied (q/Q rows, TJ operand count, operand kinds by position, end of stream at an operator boundary); "
+        "on the unfixed tree the check reports VIOLATION with a replay for each defect class",
+    ],
 }
-LEVEL = {"design_ref": "DESIGN.md 3.C12", "technique": "TODO", "text": "TODO"}
+LEVEL = {
+    "design_ref": "DESIGN.md 3.C12",
+    "technique": "Lean 4 theorems over an executable model of CSObjP/TextExtractor + regenerated OPERATORS table decided against an independent "
+                 "Figure-9 automaton + differential correspondence (exhaustive state x operator table, random walks, deviations) with the Rust extractor",
+    "text": "Machine-checked: (1) transition_table_eq_fig9 - for every operator name and every state the implementation's lookup+transition "
+            "equals the Figure-9 step of an automaton written from ISO 32000-1 Table 51/Figure 9, re-proved by kernel evaluation over the table "
+            "regenerated from the Rust const on every run (all 73x5 pairs; names outside the table are unknown to both); (2) runToks_insts + "
+            "extract_of_lex - for ALL inputs the extractor loop (fuel, white space, loop exits) is a machine over the token sequence, and for ALL "
+            "syntax trees that machine returns exactly Fig9.expected (string operands byte for byte, separator tokens, BX/EX counter, operand "
+            "count/kind checks of Tj ' \" TJ) or an error; hence valid_walk_extracts_partial / deviation_rejected_partial for every stream under the "
+            "single hypothesis that the tokenizer re-reads the rendered tree as written (Lexes), which is not proved in general (partial) but is "
+            "checked against the real code on every generated case. Four genuine defects (DESIGN 4 #18 #19 #20 #33) reproduced and repaired by "
+            "patches C12-01..04; the model mirrors the repaired code.",
+}
